@@ -9,10 +9,13 @@ package c40
 
 import (
 	"bytes"
+	"crypto/ecdsa"
+	"crypto/elliptic"
 	"crypto/sha256"
 	"encoding/base32"
 	"errors"
 	"fmt"
+	"math/big"
 	"os"
 	"path/filepath"
 	"sort"
@@ -36,6 +39,8 @@ const (
 	// 4 + ceil(8n/5) <= 255  <=>  n <= 156
 	maxNameLen = 156
 	nKeys      = 4
+	// key indices nKeys .. nKeys+nBad-1: keys that cannot be serialised (see keys)
+	nBad = 2
 )
 
 // ---------------------------------------------------------------------------
@@ -52,13 +57,29 @@ type Case struct {
 }
 
 // ---------------------------------------------------------------------------
-// keys: a small deterministic pool
+// keys: a small deterministic pool. Indices 0..nKeys-1 are ed25519 keys; the following nBad
+// entries are valid ci.PrivKey values whose Raw() returns an error, so ci.MarshalPrivateKey
+// fails and the filesystem keystore cannot store them:
+//   - nKeys:   a wrapper around an ed25519 key that refuses to export its bytes (the shape of a
+//     hardware-backed / non-exportable key behind the ci.PrivKey interface)
+//   - nKeys+1: a genuine libp2p ECDSA key (ci.ECDSAKeyPairFromKey) on a curve x509 has no OID for;
+//     (*ECDSAPrivateKey).Raw returns "x509: unknown elliptic curve"
+// They are the fault injection for "a Put that returns an error leaves the map unchanged".
 
 var (
 	keyOnce sync.Once
 	keyPool []ci.PrivKey
 	keyRaw  [][]byte
+	badDesc = []string{"wrapper whose Raw() fails", "libp2p ECDSA key on a curve without x509 OID"}
 )
+
+type unexportableKey struct{ ci.PrivKey }
+
+func (unexportableKey) Raw() ([]byte, error) {
+	return nil, errors.New("c40 harness: key material is not exportable")
+}
+
+func isBad(key int) bool { return key >= nKeys }
 
 func keys() []ci.PrivKey {
 	keyOnce.Do(func() {
@@ -74,6 +95,22 @@ func keys() []ci.PrivKey {
 			}
 			keyPool = append(keyPool, k)
 			keyRaw = append(keyRaw, b)
+		}
+		keyPool = append(keyPool, unexportableKey{keyPool[0]})
+		p256 := elliptic.P256().Params()
+		anon := &elliptic.CurveParams{P: p256.P, N: p256.N, B: p256.B, Gx: p256.Gx, Gy: p256.Gy, BitSize: p256.BitSize, Name: "c40-unregistered"}
+		ek, _, err := ci.ECDSAKeyPairFromKey(&ecdsa.PrivateKey{
+			PublicKey: ecdsa.PublicKey{Curve: anon, X: p256.Gx, Y: p256.Gy}, // D = 1  =>  Q = G
+			D:         big.NewInt(1),
+		})
+		if err != nil {
+			panic(err)
+		}
+		keyPool = append(keyPool, ek)
+		for i := nKeys; i < nKeys+nBad; i++ {
+			if _, err := ci.MarshalPrivateKey(keyPool[i]); err == nil {
+				panic(fmt.Sprintf("c40 harness: key #%d was meant to be unserialisable but marshals", i))
+			}
 		}
 	})
 	return keyPool
@@ -225,7 +262,7 @@ func run(c Case) kit.Result {
 		if countUps(op.Name) > upBudget || strings.HasPrefix(op.Name, "/") && countUps(op.Name) > 0 {
 			return kit.Result{Classes: []string{"skipped-unsafe"}}
 		}
-		if op.Key < 0 || op.Key >= nKeys {
+		if op.Key < 0 || op.Key >= nKeys+nBad {
 			return kit.Result{Classes: []string{"skipped-bad-key-index"}}
 		}
 	}
@@ -256,6 +293,11 @@ func run(c Case) kit.Result {
 			cls["name:too-long"] = true
 			switch op.Kind {
 			case "put":
+				if isBad(op.Key) {
+					// robustness only; the following has/get clauses still demand "never stored"
+					fsks.Put(op.Name, ks[op.Key])
+					continue
+				}
 				if err := fsks.Put(op.Name, ks[op.Key]); err == nil {
 					if ok, _ := fsks.Has(op.Name); !ok {
 						return kit.Fail("%s: FSKeystore.Put of a %d byte name succeeded but Has reports false", where, len(op.Name))
@@ -286,7 +328,42 @@ func run(c Case) kit.Result {
 			continue
 		}
 		_, present := model[op.Name]
+		if op.Kind == "put" && isBad(op.Key) {
+			// Fault injection on the filesystem side: the key cannot be serialised, so this Put
+			// cannot store it. A map whose insert reports an error is unchanged by it; the
+			// in-memory keystore (which never serialises) and the model are left as they are and
+			// every later step keeps comparing both stores with the model.
+			what := fmt.Sprintf("key #%d (%s)", op.Key, badDesc[op.Key-nKeys])
+			err := fsks.Put(op.Name, ks[op.Key])
+			if err == nil {
+				return kit.Fail("%s: FSKeystore.Put of %s, which ci.MarshalPrivateKey rejects, reported success (name present before: %v)", where, what, present)
+			}
+			if present {
+				cls["put:unserialisable-on-existing"] = true
+			} else {
+				cls["put:unserialisable-on-free"] = true
+			}
+			k, gerr := fsks.Get(op.Name)
+			if present {
+				if gerr != nil || k == nil || !k.Equals(ks[model[op.Name]]) {
+					return kit.Fail("%s: after the failed FSKeystore.Put of %s (%v) Get no longer returns the stored key #%d (err: %v)", where, what, err, model[op.Name], gerr)
+				}
+			} else if !errors.Is(gerr, keystore.ErrNoSuchKey) {
+				return kit.Fail("%s: FSKeystore.Put of %s failed (%v), yet Get of that name, absent before, now returns (key!=nil: %v, err: %v), want ErrNoSuchKey", where, what, err, k != nil, gerr)
+			}
+			l, lerr := fsks.List()
+			if lerr != nil {
+				return kit.Fail("%s: FSKeystore.List after the failed Put: %v", where, lerr)
+			}
+			if !sameSet(l, model) {
+				sort.Strings(l)
+				return kit.Fail("%s: FSKeystore.Put of %s failed (%v), yet List changed to %q (model has %d names)", where, what, err, l, len(model))
+			}
+		}
 		for _, im := range impls {
+			if op.Kind == "put" && isBad(op.Key) {
+				break // handled above; the state clauses below still run
+			}
 			switch op.Kind {
 			case "put":
 				err := im.k.Put(op.Name, ks[op.Key])
@@ -342,6 +419,9 @@ func run(c Case) kit.Result {
 		}
 		switch op.Kind {
 		case "put":
+			if isBad(op.Key) {
+				break // failed insert: model unchanged
+			}
 			if !present {
 				model[op.Name] = op.Key
 			}
@@ -415,11 +495,21 @@ func run(c Case) kit.Result {
 	}
 
 	// non-trivial: at some point two live names differed only by case, or a live name
-	// contained a path separator (recomputed from the case alone)
+	// contained a path separator, or a name was used again after a Put on it that had to fail
+	// (recomputed from the case alone)
 	nt := false
 	live := map[string]bool{}
+	failedPut := map[string]bool{}
 	for _, op := range c.Ops {
 		if op.Name == "" || len(op.Name) > maxNameLen {
+			continue
+		}
+		if op.Kind != "list" && failedPut[op.Name] {
+			nt = true
+			cls["nt:"+op.Kind+"-after-failed-put"] = true
+		}
+		if op.Kind == "put" && isBad(op.Key) {
+			failedPut[op.Name] = true
 			continue
 		}
 		switch op.Kind {
@@ -524,6 +614,9 @@ func gen(t *rapid.T) Case {
 			}
 			if op.Kind == "put" {
 				op.Key = rapid.IntRange(0, nKeys-1).Draw(t, "key")
+				if rapid.IntRange(0, 5).Draw(t, "unserialisable") == 0 {
+					op.Key = nKeys + rapid.IntRange(0, nBad-1).Draw(t, "badkey")
+				}
 			}
 			used = append(used, op.Name)
 		}
@@ -534,7 +627,7 @@ func gen(t *rapid.T) Case {
 
 var spec = kit.Spec[Case]{
 	Prop: "C40", Name: "main",
-	Rule: "1..30 operations put/get/has/delete/list over names with '/', '..', NUL, unicode, case variants, names that look like encoded file names, lengths around the 156-byte limit, 4 ed25519 keys; FSKeystore and MemKeystore are each compared with a map model at every step (Put refuses to overwrite with ErrKeyExists, Get ErrNoSuchKey, Has, List as sets; Delete compared by resulting state), the keystore directory must hold exactly one regular file key_<lowercase base32(name)> per key with the marshalled key, decoy key files outside the directory must never be served, and a snapshot of the sandbox outside the directory must be unchanged. non-trivial = at some point two live names differ only by case, or a live name contains a path separator",
+	Rule: "1..30 operations put/get/has/delete/list over names with '/', '..', NUL, unicode, case variants, names that look like encoded file names, lengths around the 156-byte limit, 4 ed25519 keys, and (about every sixth Put) one of 2 valid ci.PrivKey values whose Raw() fails so that the key cannot be serialised; FSKeystore and MemKeystore are each compared with a map model at every step (Put refuses to overwrite with ErrKeyExists, Get ErrNoSuchKey, Has, List as sets; Delete compared by resulting state), the keystore directory must hold exactly one regular file key_<lowercase base32(name)> per key with the marshalled key, decoy key files outside the directory must never be served, and a snapshot of the sandbox outside the directory must be unchanged. A Put of an unserialisable key is given to the filesystem keystore only: it must return an error and leave the map unchanged (Get, List, Has of every name used so far and the exact directory content are re-checked against the model, and the in-memory keystore keeps agreeing on every later operation). non-trivial = at some point two live names differ only by case, or a live name contains a path separator, or a name is used again after such a failed Put on it",
 	Quick: 1500, Thorough: 4000,
 	Gen: gen, Run: run,
 	Sample: func(c Case) any {
@@ -546,6 +639,9 @@ var spec = kit.Spec[Case]{
 			}
 			if o.Kind == "put" {
 				x += fmt.Sprintf(" key#%d", o.Key)
+				if isBad(o.Key) {
+					x += " (unserialisable)"
+				}
 			}
 			s = append(s, x)
 		}
